@@ -171,7 +171,11 @@ def replay_scope(run, hvsrpy, by_range, freq, scale, ascale, rng, stride, cfg):
     by_prev = {}
     for oi, order in enumerate(orders):
         trad = HvsrTraditional(freq, amp)
-        azi = HvsrAzimuthal([HvsrTraditional(freq, amp[:half]), HvsrTraditional(freq, amp[half:])], [0., 90.])
+        # (the per-azimuth objects the azimuthal result was assembled from stay in use: they keep answering THEIR range - the whole
+        #  curve - whatever range the azimuthal result is moved to, and a range given to one of them does not move the azimuthal result)
+        src0, src1 = HvsrTraditional(freq, amp[:half]), HvsrTraditional(freq, amp[half:])
+        azi = HvsrAzimuthal([src0, src1], [0., 90.])
+        whole = [k_ for k_ in by_range if k_ == (NOEND, NOEND)]
         # start from the constructor state (None, None), then repeat every range once more (no-op path)
         seq = []
         for r_ in order:
@@ -189,6 +193,13 @@ def replay_scope(run, hvsrpy, by_range, freq, scale, ascale, rng, stride, cfg):
             check_container(run, f"HvsrTraditional[order{oi}]", trad, cs, freq, amp, scale, ascale, 0)
             check_container(run, f"HvsrAzimuthal[0][order{oi}]", azi.hvsrs[0], cs[:half], freq, amp[:half], scale, ascale, 0)
             check_container(run, f"HvsrAzimuthal[1][order{oi}]", azi.hvsrs[1], cs[half:], freq, amp[half:], scale, ascale, 0)
+            if whole:
+                check_container(run, f"source-of-azimuthal[0][order{oi}]", src0, by_range[whole[0]][:half], freq, amp[:half], scale, ascale, 0)
+                if rng.random() < 0.2:
+                    # ... and the other way round: the second source is given the current range; the azimuthal result (moved on below) keeps its own
+                    src1.update_peaks_bounded(search_range_in_hz=r)
+                    check_container(run, f"source-of-azimuthal[1][order{oi}]", src1, cs[half:], freq, amp[half:], scale, ascale, 0)
+                    check_container(run, f"HvsrAzimuthal[1][order{oi}]", azi.hvsrs[1], cs[half:], freq, amp[half:], scale, ascale, 0)
             # "changing the range always re-evaluates every peak" - also when the range is changed by the window-rejection
             # algorithm (which updates the inner objects itself) and for the peak of the azimuthal MEAN curve: it must be the one
             # of an object built from the same curves, masks and range in the ordinary way
